@@ -127,12 +127,12 @@ def arrays_equal(cfg, a, b):
 def gen_cfg(rng, small=True, modes=None):
     for _ in range(200):
         n, d = rng.choice([(1, 1), (100, 1), (200, 3), (10 ** 6, 3), (10 ** 8, 7), (25 * 10 ** 6, 3), (48000, 1),
-                           (1000, 7), (2 ** 31 - 1, 10 ** 9), (10, 1), (1000, 1), (15, 1), (3, 1), (25, 1)])
+                           (1000, 7), (2 ** 31 - 1, 10 ** 9), (10, 1), (1000, 1), (15, 1), (3, 1), (25, 1), (30000, 1), (40000, 3)])
         sc, fc = rng.choice([(1, 20), (2, 400), (3600, 1000), (1, 1), (10, 2500), (1, 1000), (3600, 60000), (1, 250),
-                             (2, 100), (1, 5)])
+                             (2, 100), (1, 5), (3600, 1), (3600, 2)])
         pf = fc * n // (1000 * d)
         # at least one sample per file (exactly one, and 1.x, included)
-        if not (1 <= pf <= (40 if small else 4000)) or fc * n < 1000 * d:
+        if not (1 <= pf <= (50 if small else 4000)) or fc * n < 1000 * d:
             continue
         t = rng.choice([315532800, 951782400, 1500000000, 1499999999, 1709164800, 2147483648, 4102444799,
                         rng.randrange(315532800, 4102444800)]) * 1000
@@ -154,7 +154,7 @@ def gen_cfg(rng, small=True, modes=None):
     raise RuntimeError("no config")
 
 
-def gen_ops(rng, cfg, nops, invalid_rate=0.0, blocks=True, close=True, style=None):
+def gen_ops(rng, cfg, nops, invalid_rate=0.0, blocks=True, close=True, style=None, far=False):
     """ops: ("w", ns|None, len, tag0) | ("b", len, tag0, G, D) | ("c",)
     keeps a shadow cursor so that most calls are valid; tags are consecutive and never reused"""
     pf = cfg.per_file()
@@ -169,6 +169,16 @@ def gen_ops(rng, cfg, nops, invalid_rate=0.0, blocks=True, close=True, style=Non
 
     if style is None:
         style = rng.choice(["edges", "edges", "dense"])
+    # one jump of more than 2**32 samples per history at most (cursor arithmetic beyond 32 bits).  Only on
+    # request: DigitalRFReader enumerates every candidate file name of a requested range, so checks that
+    # read the whole channel back cannot afford such a jump; the writer-side checks (C05, C19) can
+    far_ok = [far]
+
+    def far(gap):
+        if far_ok[0] and rng.random() < 0.1:
+            far_ok[0] = False
+            return 2 ** 32 + rng.choice([0, 1, 7, pf, gap])
+        return gap
     if style == "dense":
         nops = nops + rng.randrange(2, 6)
     for _ in range(nops):
@@ -182,7 +192,7 @@ def gen_ops(rng, cfg, nops, invalid_rate=0.0, blocks=True, close=True, style=Non
         bad = rng.random() < invalid_rate
         if blocks and rng.random() < 0.4:
             nb = rng.choice([1, 2, 2, 3, 4])
-            g = cur + max(0, rng.choice(gapc))
+            g = cur + far(max(0, rng.choice(gapc)))
             G, D = [], []
             off = 0
             for b in range(nb):
@@ -197,8 +207,12 @@ def gen_ops(rng, cfg, nops, invalid_rate=0.0, blocks=True, close=True, style=Non
                     g = g + ln + max(0, rng.choice([0, 1, 1, 2, e - 1, e, e + 1, pf]))
             total = off
             if bad:
-                kind = rng.choice(["past", "d0", "len", "dorder", "gorder", "dbeyond", "overlap", "overlap-late", "overlap-late"])
-                if kind == "past" and cur > 0:
+                kind = rng.choice(["past", "d0", "len", "dorder", "gorder", "dbeyond", "overlap", "overlap-late", "overlap-late",
+                                   "negative"])
+                if kind == "negative":
+                    # a signed index array whose first entry is negative (it must not wrap to 2**64 - x)
+                    G = [-rng.choice([1, 10, cur + 5])] + G[1:]
+                elif kind == "past" and cur > 0:
                     G = [x - (G[0] - cur) - rng.choice([1, cur]) for x in G]
                     G = [max(0, x) for x in G]
                 elif kind == "d0":
@@ -235,11 +249,13 @@ def gen_ops(rng, cfg, nops, invalid_rate=0.0, blocks=True, close=True, style=Non
             ln = max(1, rng.choice(lens))
             if rng.random() < 0.03:
                 ln = 0
-            gap = max(0, rng.choice(gapc))
+            gap = far(max(0, rng.choice(gapc)))
             ns = cur + gap
             if bad and cur > 0:
                 ns = cur - rng.choice([1, 1, 2, cur])
                 ns = max(0, ns)
+            elif bad and rng.random() < 0.5:
+                ns = -rng.choice([1, 5])
             use_none = (gap == 0 and not bad and rng.random() < 0.5)
             ops.append(("w", None if use_none else ns, ln, tag))
             if ns >= cur and ln > 0:
@@ -289,7 +305,7 @@ def parse_model(out, nops):
 
 # ------------------------------------------------------------------------------- implementation
 
-ERRCLS = {ValueError: 1, RuntimeError: 2, IOError: 3, OSError: 3}
+ERRCLS = {ValueError: 1, TypeError: 1, RuntimeError: 2, IOError: 3, OSError: 3}   # 1 = refused by the front end
 
 
 def errclass(e):
@@ -306,6 +322,21 @@ def make_writer(cfg, chdir, uuid="verif-uuid"):
     import digital_rf
     return digital_rf.DigitalRFWriter(chdir, cfg.realdtype, cfg.sc, cfg.fc, cfg.start, cfg.n, cfg.d, uuid,
                                       cfg.comp, cfg.cksum, cfg.is_complex, cfg.nsub, cfg.cont, False)
+
+
+def index_form(vals, which):
+    """the block index arrays may be given as unsigned or signed integer arrays, lists or (exactly
+    representable) floats; all forms must behave alike, and negative entries must be refused"""
+    vals = list(vals)
+    neg = any(v < 0 for v in vals)
+    which = which % 4
+    if neg or which == 1:
+        return np.array(vals, dtype=np.int64) if which != 2 else vals
+    if which == 2:
+        return vals
+    if which == 3 and all(v < 2 ** 52 for v in vals):
+        return np.array(vals, dtype=np.float64)
+    return np.array(vals, dtype=np.uint64)
 
 
 def input_form(cfg, arr, which):
@@ -342,7 +373,7 @@ def run_impl(cfg, ops, chdir, hook=None):
                 ret = w.rf_write(input_form(cfg, enc(cfg, range(op[3], op[3] + op[2])), op[3]), op[1])
             elif op[0] == "b":
                 ret = w.rf_write_blocks(input_form(cfg, enc(cfg, range(op[2], op[2] + op[1])), op[2]),
-                                        np.array(op[3], dtype=np.uint64), np.array(op[4], dtype=np.uint64))
+                                        index_form(op[3], op[2]), index_form(op[4], op[2] + 1))
             elif op[0] == "c":
                 w.close()
             elif op[0] == "session":
@@ -482,7 +513,7 @@ def budget_scale(res):
 
 
 def run_histories(res, nhist, oracle, invalid_rate=0.0, blocks=True, modes=None, nops=(2, 7), gaprule=None,
-                  small=True, sessions=False, keep=False):
+                  small=True, sessions=False, keep=False, far=False):
     """Generate nhist histories, run each on the implementation and on the model, record
     model/implementation disagreements (reports after every call, final files) in res, and call
     oracle(cfg, ops, reports, files, chdir, model_reports, model_files) for the property's own checks."""
@@ -496,7 +527,7 @@ def run_histories(res, nhist, oracle, invalid_rate=0.0, blocks=True, modes=None,
     hs = []
     for i in range(nhist):
         cfg = gen_cfg(rng, small=small, modes=modes)
-        ops = gen_ops(rng, cfg, rng.randrange(nops[0], nops[1] + 1), invalid_rate=invalid_rate, blocks=blocks)
+        ops = gen_ops(rng, cfg, rng.randrange(nops[0], nops[1] + 1), invalid_rate=invalid_rate, blocks=blocks, far=far)
         hs.append((cfg, ops))
     model_out = common.run_model("writer", [encode_case(cfg, ops, gaprule) for cfg, ops in hs])
     ndis = 0
